@@ -20,7 +20,12 @@ pub mod raw;
 pub use origin::WithOrigin;
 pub use raw::WithRawSiginfo;
 
+#[cfg(not(sighook_verif))]
 use std::sync::atomic::{AtomicBool, Ordering};
+#[cfg(sighook_verif)]
+use signal_hook_registry::verif::AtomicBool;
+#[cfg(sighook_verif)]
+use std::sync::atomic::Ordering;
 
 use libc::{c_int, siginfo_t};
 
